@@ -86,6 +86,9 @@ class AttributeCollection(MutableMapping[int, Attribute]):
     cached: ClassVar[AttributeCollection | None] = None
     # previously parsed attribute, from which cached was made of
     previous: ClassVar[Buffer] = b''
+    # ... and the AS number width it was parsed under: the same bytes are another AS_PATH or
+    # AGGREGATOR (or a malformed one) on a session which negotiated the other width
+    cached_asn4: ClassVar[bool | None] = None
 
     representation: ClassVar[dict[int, tuple[str, str, str | tuple[str, ...], str, str]]] = {
         # key:  (how, default, name, text_presentation, json_presentation),
@@ -355,7 +358,7 @@ class AttributeCollection(MutableMapping[int, Attribute]):
 
     @classmethod
     def unpack(cls, data: Buffer, negotiated: Negotiated) -> AttributeCollection:
-        if cls.cached and data == cls.previous:
+        if cls.cached and data == cls.previous and negotiated.asn4 == cls.cached_asn4:
             return cls.cached
 
         attributes = cls().parse(data, negotiated)
@@ -369,6 +372,7 @@ class AttributeCollection(MutableMapping[int, Attribute]):
         if Attribute.CODE.MP_REACH_NLRI not in attributes and Attribute.CODE.MP_UNREACH_NLRI not in attributes:
             cls.previous = data
             cls.cached = attributes
+            cls.cached_asn4 = negotiated.asn4
         else:
             cls.previous = b''
             cls.cached = None
